@@ -23,6 +23,8 @@ type c17Conn struct {
 	Faults   bool  `json:"net_faults"`
 	ReadBuf  int   `json:"hijack_read_buf"`
 	ClientFirst bool `json:"client_closes_first"`
+	NoOwnDeadline bool `json:"hijack_handler_sets_no_deadline,omitempty"` // it relies on the connection coming without deadlines
+	SrvWriteFailAt int `json:"server_write_fails_at_byte,omitempty"`     // the server's output on this connection fails at this byte (inside or before the hijacking response)
 	ReqConn  string `json:"hijacking_request_connection,omitempty"` // "" | close | http10: the response ends HTTP on this connection; the hijack is still due
 }
 
@@ -31,6 +33,7 @@ type c17Plan struct {
 	NoResponse bool      `json:"hijack_set_no_response"`
 	Keep       bool      `json:"keep_hijacked_conns"`
 	ReadBufSz  int       `json:"read_buffer_size"`
+	ReadTimeoutMs int    `json:"read_timeout_ms,omitempty"`
 	Conns      []c17Conn `json:"conns"`
 }
 
@@ -39,7 +42,7 @@ func init() { scenarios["C17"] = scenC17 }
 func tailPat(ci int, i int) byte { return byte('a' + (i*7+ci*3+i/26)%26) }
 
 func scenC17(e *Env) func() {
-	p := &c17Plan{ReduceMem: e.Chance(40), NoResponse: e.Chance(30), Keep: e.Chance(30), ReadBufSz: Pick(e, 4096, 4096, 512, 8192)}
+	p := &c17Plan{ReduceMem: e.Chance(40), NoResponse: e.Chance(30), Keep: e.Chance(30), ReadBufSz: Pick(e, 4096, 4096, 512, 8192), ReadTimeoutMs: Pick(e, 0, 0, 300)}
 	n := e.Range(1, 4)
 	var subs []simnet.Faults
 	for ci := 0; ci < n; ci++ {
@@ -47,8 +50,18 @@ func scenC17(e *Env) func() {
 		// stream = before-requests + hijack request + tail; cut anywhere
 		total := c.Before*40 + 80 + c.TailLen
 		c.Cuts = e.Cuts(total, Pick(e, 0, 1, 2, 5))
-		for range c.Cuts {
-			c.PauseMs = append(c.PauseMs, Pick(e, 0, 0, 0, 1, 50, 700))
+		sent := 0
+		for _, n := range c.Cuts {
+			pm := Pick(e, 0, 0, 0, 1, 50, 700)
+			sent += n
+			if p.ReadTimeoutMs > 0 && sent < c.Before*40+80 && pm >= 50 {
+				pm = 1 // a request that dawdles past ReadTimeout is legitimately cut off: only the tail may be slow
+			}
+			c.PauseMs = append(c.PauseMs, pm)
+		}
+		c.NoOwnDeadline = e.Chance(50)
+		if e.Chance(12) {
+			c.SrvWriteFailAt = Pick(e, 1, 50, 120, 200, 400)
 		}
 		p.Conns = append(p.Conns, c)
 		f := simnet.Faults{}
@@ -63,7 +76,7 @@ func scenC17(e *Env) func() {
 }
 
 func c17Run(e *Env, p *c17Plan, subs []simnet.Faults) {
-	s := &fasthttp.Server{ReduceMemoryUsage: p.ReduceMem, KeepHijackedConns: p.Keep, ReadBufferSize: p.ReadBufSz, IdleTimeout: time.Minute}
+	s := &fasthttp.Server{ReduceMemoryUsage: p.ReduceMem, KeepHijackedConns: p.Keep, ReadBufferSize: p.ReadBufSz, IdleTimeout: time.Minute, ReadTimeout: time.Duration(p.ReadTimeoutMs) * time.Millisecond}
 	k := NewServerKit(e, s)
 	type hj struct {
 		got          []byte
@@ -79,6 +92,7 @@ func c17Run(e *Env, p *c17Plan, subs []simnet.Faults) {
 	clients := map[string]*simnet.Conn{}
 	want := map[string]int{}
 	rbuf := map[string]int{}
+	noDeadline := map[string]bool{}
 	k.Handle = func(ctx *fasthttp.RequestCtx, inv *Inv) {
 		if !strings.HasPrefix(inv.URI, "/hijack") {
 			if strings.HasPrefix(inv.URI, "/plainnr") {
@@ -101,7 +115,9 @@ func c17Run(e *Env, p *c17Plan, subs []simnet.Faults) {
 			rec.srv.MarkOwner()
 			rec.sentAtEntry = rec.srv.Sent()
 			rec.entered = true
-			c.SetReadDeadline(time.Now().Add(3 * time.Minute))
+			if !noDeadline[addr] {
+				c.SetReadDeadline(time.Now().Add(3 * time.Minute))
+			}
 			buf := make([]byte, rbuf[addr])
 			n := want[addr]
 			for len(rec.got) < n {
@@ -161,6 +177,11 @@ func c17Run(e *Env, p *c17Plan, subs []simnet.Faults) {
 			recs[addr] = &hj{kept: make(chan net.Conn, 1)}
 			want[addr] = c.TailLen
 			rbuf[addr] = c.ReadBuf
+			noDeadline[addr] = c.NoOwnDeadline
+			if c.SrvWriteFailAt > 0 {
+				conn.Peer().F.FailWriteAt = int64(c.SrvWriteFailAt)
+				e.Fault("server_write_error")
+			}
 			ex := &Exchange{Addr: addr}
 			exs[ci] = ex
 			wdone := make(chan struct{})
@@ -226,6 +247,11 @@ func c17Run(e *Env, p *c17Plan, subs []simnet.Faults) {
 		c := p.Conns[ci]
 		e.Ob(1)
 		if ex.WriteErr != nil && !rec.entered {
+			continue
+		}
+		if !rec.entered && c.SrvWriteFailAt > 0 {
+			// documented: no hijack after an error while writing the response
+			e.Probe("hijack-skipped-write-error")
 			continue
 		}
 		if !rec.entered {
